@@ -408,8 +408,29 @@ func genC01(seed, index uint64, tier string) *Plan {
 	p.Charts = g.ChartFamily(co)
 	ho := &HistoryOpts{NVersions: len(p.Charts), Flags: true, MaxHistory: g.Chance(0.6), AllowReads: true, WaitP: 0.4, AtomicP: 0.25, FirstInst: 0.9}
 	n := 1 + g.Weighted(2, 4, 5, 4, 3, 2, 1, 1)
+	long := g.Chance(0.07)
+	if long {
+		// long histories: revision numbers with two digits, pruning with gaps
+		n = 10 + g.N(5)
+		ho.AllowReads = false
+		for ci := range p.Charts {
+			if len(p.Charts[ci].Slots) > 2 {
+				p.Charts[ci].Slots = p.Charts[ci].Slots[:2]
+			}
+			p.Charts[ci].Subcharts = nil
+		}
+	}
 	for i := 0; i < n; i++ {
 		op := g.Op(i, ho)
+		if long && i > 0 && op.Op != "upgrade" && op.Op != "rollback" {
+			op = OpSpec{Op: "upgrade", Chart: g.N(len(p.Charts)), TimeoutS: 60}
+			if g.Chance(0.3) {
+				op.MaxHistory = []int{2, 3, 5, 10}[g.N(4)]
+			}
+		}
+		if long && op.Op == "rollback" {
+			op.Revision = g.N(i + 2)
+		}
 		p.Steps = append(p.Steps, Step{Op: &op})
 	}
 	switch g.Weighted(3, 5, 3) {
